@@ -617,7 +617,8 @@ pub fn parse_number<'a, const FORMAT: u128, const IS_PARTIAL: bool>(
     // Check if integer leading zeros are disabled.
     #[cfg(feature = "format")]
     if !is_prefix && format.no_float_leading_zeros() {
-        if integer_digits.len() > 1 && integer_digits.first() == Some(&b'0') {
+        // NOTE: Count digits, not bytes: the slice may contain digit separators.
+        if n_digits > 1 && start.clone().integer_iter().peek() == Some(&b'0') {
             return Err(Error::InvalidLeadingZeros(start.cursor()));
         }
     }
